@@ -2,6 +2,7 @@ import Genshi.Wire
 import Genshi.WireCore
 import Genshi.Model.TmplImpl
 import Genshi.Model.TmplExtract
+import Genshi.Model.TmplText
 namespace Driver.C04
 open Genshi Genshi.Tmpl Genshi.Sexp
 
@@ -157,7 +158,10 @@ def handle : List Sexp → Option Sexp
       | "doc" => pure (outRes (docRender fuel nodes data))
       | "impl" => pure (outRes (implRender fuel nodes data))
       | "compile" => pure (.list ((compileNodes nodes).map cevS))
-      | "compileflat" => pure (.list ((compileFlat nodes).map cevS))
+      | "compileflat" =>
+          -- the construction-time pipeline as the code runs it, per template language
+          if markup then pure (.list ((compileFlat nodes).map cevS))
+          else pure (.list ((compileText nodes).map cevS))
       | _ => none
   | _ => none
 
